@@ -175,6 +175,8 @@ def _fd_cases():
         ('shell', 'echo a | cat; minfd', None),
         ('shell', 'X=$(echo a | cat); minfd', None),
         ('shell', 'echo a > f1; alias > f2 2>&1; minfd', None),
+        ('shell', 'alias 1>&2 > f3; minfd', None),
+        ('shell', 'alias nosuch > f4 2> f5; minfd', None),
         ('shell', 'ulimit -n 5; echo a | cat <<< b; minfd', None),
         ('child', 'ls /proc/self/fd', None), ('child', 'ls /proc/self/fd 2>&1', None), ('child', 'ls /proc/self/fd 1>&2', 'stderr'), ('child', 'ls /proc/self/fd > f; cat f', None),
         ('child', 'echo a | ls /proc/self/fd', None), ('child', 'ls /proc/self/fd | cat', None), ('child', 'echo a | ls /proc/self/fd | cat', None),
